@@ -21,6 +21,42 @@ PROPS = {
                 "plus SF64-vs-float64 primitive operations on boundary/random bit patterns; distinct = distinct (case, model output); "
                 "non-trivial = compiled by the real compiler",
     },
+    "C02": {
+        "streams": {"c02": {"quick": 20000, "thorough": 500000}},
+        "trusted": ["sdcpb.Path helpers (AddPathElem, DeepCopy, AddKey, LastPathElem) are modelled, not verified",
+                    "mock xpath.Entry: Navigate is a function of the path only; values are a deterministic hash of the canonical path (shared with the Lean driver)"],
+        "modelled": ["two predicates with the same key on one step, and multi-valued operands of a predicate: outside what the property fixes (compared impl-vs-model only)"],
+        "rule": "random location paths of the supported grammar (absolute/relative/current()/deref() roots, '..' steps, prefixes, <=2 predicates per step with literal, "
+                "number, function-call and path operands), three whitespace spellings; the real compiler+machine run against a recording mock Entry; compared: the exact "
+                "sequence of Navigate/GetValue/FollowLeafRef requests and the value; distinct = distinct (text, model output)",
+    },
+    "C03": {
+        "streams": {"c03": {"quick": 10000, "thorough": 300000}},
+        "trusted": [],
+        "modelled": [],
+        "rule": "random operator mixes (all 13 binary operators, unary minus) over numbers, literals, function calls and location paths with predicates, depth <=4 quick / <=7 "
+                "thorough; each tree rendered twice (minimal vs fully parenthesised; two random admissible parenthesisations; same tokens with different whitespace at every "
+                "boundary); compared: PrintMachine listings of the two variants with each other and with the program of the tree, and the run results; distinct = distinct case",
+    },
+    "C05": {
+        "streams": {"xfuzz": {"quick": 30000, "thorough": 1000000, "spec_proj": "total"},
+                    "c05fault": {"quick": 2500, "thorough": 60000}},
+        "trusted": ["path_eval machines run on the legacy node-set engine: only construction totality is claimed for that grammar"],
+        "modelled": [],
+        "rule": "xfuzz: all 1-2 byte inputs over a 33-byte alphabet x 3 grammars, random bytes, mutated valid expressions (under recover: any panic is an observation); "
+                "c05fault: random supported paths x the k-th data-tree callback failing for every k in 1..8; compared: the error that reaches GetError/Get*Result",
+    },
+    "C04": {
+        "streams": {"xsmall": {"quick": 1, "thorough": 1, "spec_proj": "accept"},
+                    "xfuzz": {"quick": 30000, "thorough": 1000000, "spec_proj": "accept"}},
+        "trusted": ["the goyacc LALR(1) driver implements the grammar of xpath.y / leafref.y (no conflicts reported: checked on every run); "
+                    "the small-scope exhaustive token-sequence stream is the evidence for that"],
+        "modelled": ["PfxMapFn is modelled as 'the empty prefix and a given set of prefixes resolve'",
+                     "plugin-registered custom functions are not modelled (none are loaded in the harness)"],
+        "rule": "xsmall: EVERY token sequence of length <=3 (quick) / <=4 (thorough) over a 47-lexeme XPath alphabet and <=4/5 over a 20-lexeme "
+                "leafref alphabet, spelled with and without separating blanks (exhaustive); xfuzz: all 1-2 byte inputs over a 33-byte alphabet for the "
+                "three grammars + random bytes + mutated valid expressions / leafref paths; distinct = distinct (input, model output)",
+    },
 }
 
 STREAMS = {}
